@@ -186,6 +186,8 @@ struct State {
     layers: BTreeMap<String, LayerBox>,
     models: BTreeMap<String, ModelBox>,
     optimizers: BTreeMap<String, GradientDescent>,
+    /// one cost closure per kind for the whole case (a cost closure is created once and called many times)
+    costs: BTreeMap<String, CostFunction>,
 }
 
 impl State {
@@ -574,12 +576,15 @@ fn exec(ctx: &Ctx, st: &mut State, toks: &[&str]) -> String {
             format!("params {}", parts.join(" ; "))
         }
         ["cost", w, c, o, t] => {
-            let cf: CostFunction = match *c {
-                "mse" => cost::mse(),
-                "xent" => cost::cross_entropy(),
-                _ => panic!("bad cost"),
-            };
-            let r = cf(st.get(o), st.get(t));
+            if !st.costs.contains_key(*c) {
+                let cf: CostFunction = match *c {
+                    "mse" => cost::mse(),
+                    "xent" => cost::cross_entropy(),
+                    _ => panic!("bad cost"),
+                };
+                st.costs.insert(c.to_string(), cf);
+            }
+            let r = (st.costs[*c])(st.get(o), st.get(t));
             let out = show(&r);
             st.bind(w, r);
             out
